@@ -22,7 +22,7 @@ OUTSIDE_DIRS = {0: ["/other", "/localX", "/local.bak"], 1: ["/other", "/remoteX"
 
 
 def budget(tier):
-    return {"quick": {"runs": 5000, "wall": 170}, "thorough": {"runs": 300000, "wall": 1500}}[tier]
+    return {"quick": {"runs": 5000, "wall": 170}, "thorough": {"runs": 60000, "wall": 900}}[tier]
 
 
 def _inside(root, path):
